@@ -62,8 +62,9 @@ inductive VClass where
   | instruction | macro | register | predefined | none
 deriving Repr, DecidableEq, Inhabited
 
-/-- the rule order of the generated grammars: instructions, macros, registers, predefined names -/
-def classify (instrs macros regs pre : List String) (w : String) : VClass :=
+/-- the rule order of the generated grammars: instructions, macros, registers, predefined names;
+    the alternatives of each rule in the order given -/
+def classifyOrdered (instrs macros regs pre : List String) (w : String) : VClass :=
   if (firstMatch true (wordListRx instrs) w.toList).isSome then
     (if takesWhole true (wordListRx instrs) w then .instruction else .none)
   else if (firstMatch true (wordListRx macros) w.toList).isSome then
@@ -72,6 +73,18 @@ def classify (instrs macros regs pre : List String) (w : String) : VClass :=
     (if takesWhole true (wordListRx regs) w then .register else .none)
   else if takesWhole false (wordListRx pre) w then .predefined
   else .none
+
+/-- `sorted(names, key=len, reverse=True)`: longest first, stable -/
+def insertByLen (x : String) : List String → List String
+  | [] => [x]
+  | y :: ys => if y.length ≤ x.length then x :: y :: ys else y :: insertByLen x ys
+
+def sortByLenDesc (ws : List String) : List String := ws.foldr insertByLen []
+
+/-- the generated grammars: each vocabulary listed longest name first (so that a name extending
+    another one, `st.b` / `st`, is tried before it) -/
+def classify (instrs macros regs pre : List String) (w : String) : VClass :=
+  classifyOrdered (sortByLenDesc instrs) (sortByLenDesc macros) (sortByLenDesc regs) (sortByLenDesc pre) w
 
 /-- spec: membership in the configured vocabulary (case-insensitive except predefined names) -/
 def classifySpec (instrs macros regs pre : List String) (w : String) : VClass :=
